@@ -76,6 +76,7 @@ def write_world_traces(worlds, cases, results, outdir):
                 for j, line in enumerate(lines[1:]):
                     ev = json.loads(line)
                     ev["ti"] = n  # unique id within the file
+                    ev["first"] = j == 0
                     f.write(json.dumps(ev) + "\n")
                     index.append((idx, j))
                     n += 1
@@ -126,7 +127,7 @@ def free_run(args):
             return dict(trace=None, mism=[("rows",)], skipped=None)
         raise
     path = os.path.join(C.scratch(), "free_%d_%s.ndjson" % (os.getpid(), wid))
-    O.record_run(r.model, path, wid=wid)
+    O.record_run(r.model, path, wid=wid, world=w)
     lines = open(path).read().splitlines()
     os.remove(path)
     return dict(trace=lines, mism=[], skipped=None)
@@ -191,6 +192,7 @@ def run(prop, tier):
     n2 = len(r2["cases"]) if thorough else 1200
     sel = E.stratified(r1["cases"], n1, rng) + E.stratified(r2["cases"], n2, rng)
     allw = W1 + W2
+    E._WORLDS_ALL = {w["id"]: w for w in allw}
     res = E.replay(allw, sel, want_obs=True)
     mismatching = [(c, o) for c, o in zip(sel, res) if o["mism"]]
     cov["replayed"] = len(sel)
@@ -198,8 +200,9 @@ def run(prop, tier):
     cov["replay_skipped_illposed"] = sum(1 for o in res if o["skipped"])
     for (wid, case), o in mismatching[:200]:
         kind = o["mism"][0][0]
-        if prop == "C03" or (prop == "C05" and kind == "rows"):
-            V.violation("%s replay %s world=%s" % (prop, kind, wid.split("_dt")[0]), dict(world=wid, case=case, mismatch=o["mism"]))
+        flushcase = kind == "stock" and o["mism"][0][1] == 0 and any(float(Fr(*rows[0])) > 0 for c, rows in zip(E._WORLDS_ALL[wid]["comps"], case.get("init", [])) if c["kind"] in ("junction", "resjunction"))
+        if prop == "C03" or (prop == "C05" and kind == "rows") or (prop == "C04" and flushcase):
+            V.violation("%s replay %s world=%s" % (prop, "initial-flush" if (prop == "C04" and flushcase) else kind, wid.split("_dt")[0]), dict(world=wid, case=case, mismatch=o["mism"]))
         else:
             V.note_drift("replay mismatch (%s) in world %s does not by itself falsify %s; judged by the trace clauses" % (kind, wid, prop))
 
